@@ -25,6 +25,8 @@ def run(check: Check, repo: Repo, tier: str) -> None:
     S.kind_contradiction(check, repo)
     S.kind_attr(check, repo)
     S.validate_raises(check, repo)
+    S.skip_reports(check, repo)
+    S.wrapper_pairing(check, repo, [('utilities.type_comparators', 'is_equal_type'), ('utilities.type_comparators', 'is_type_sub_type_of')])
     S.schema_errors_first(check, repo)
     check.rule("DISPATCH-EXH", "every member of a closed class family has a handling arm in the dispatch")
     preds = S.predicate_classes(repo)
